@@ -27,7 +27,7 @@ if [ "$PATCH" != "none" ]; then
     git -C $LAB/repo apply "$PATCH" || { echo "PATCH-DOES-NOT-APPLY"; exit 2; }
 fi
 if [ $TESTS = 1 ]; then
-    if (cd $LAB/repo && cargo test --workspace --no-fail-fast --offline >$LAB/out/tests.log 2>&1); then echo "TESTS pass"; else echo "TESTS FAIL"; fi
+    if (cd $LAB/repo && timeout 600 cargo test --workspace --no-fail-fast --offline >$LAB/out/tests.log 2>&1); then echo "TESTS pass"; else echo "TESTS FAIL"; fi
 fi
 (cd $LAB/sim && CARGO_NET_OFFLINE=true cargo build --release --offline >$LAB/out/build.log 2>&1) || { echo "BUILD-FAILED"; tail -20 $LAB/out/build.log; exit 2; }
 for P in "$@"; do
